@@ -208,6 +208,44 @@ theorem xlsx_range_spec (cfg : Cfg) (s : Sheet) (lay : Layout) (hwf : s.WF) (hok
       intro x hx
       exact hfree x (hsub x hx).1
 
+/-! ## robustness of the modelled reader (C06 overlap; after ledger D30-a/c/d and D39) -/
+
+/-- on *any* event list — malformed references, reversed dimensions, out-of-range shared-string indices,
+    unknown cell types, cursors at the `u32` limit — `XlsxCellReader::new` + `next_cell` return cells and then
+    `Ok(None)` or an error; they never panic. (`Range::from_sparse` on what they return is C05/C06's.) -/
+theorem reader_no_panic (cfg : Cfg) (evs : List Ev) :
+    (∃ v, readCells cfg evs = .ok v) ∨ (∃ e, readCells cfg evs = .err e) := by
+  unfold readCells
+  rcases readerNew_total evs default false with ⟨⟨d, rest⟩, h⟩ | ⟨e, h⟩
+  · rw [h]; simp only
+    rcases run_total cfg rest initSt with h2 | ⟨e, h2⟩
+    · cases hr : run cfg rest initSt with
+      | mk cells res =>
+        rw [hr] at h2; simp only at h2; subst h2
+        exact Or.inl ⟨_, rfl⟩
+    · cases hr : run cfg rest initSt with
+      | mk cells res =>
+        rw [hr] at h2; simp only at h2; subst h2
+        exact Or.inr ⟨_, rfl⟩
+  · rw [h]; exact Or.inr ⟨_, rfl⟩
+
+/-! ## shared strings -/
+
+/-- **sst_alignment** (after ledger D20, D21): whatever the element prefix, the `i`-th string of the table is
+    the text of the `i`-th `<si>` — an item without text (`<si/>`, or phonetic-only) is the empty string and
+    does not shift the later indices; rich text is the concatenation of its runs, phonetic runs excluded. -/
+theorem sst_alignment (p : Bool) (items : List SstItem) :
+    readSharedStrings (renderSst p items) = .ok (items.map SstItem.text) := by
+  unfold readSharedStrings renderSst
+  simp only [List.append_assoc, List.cons_append, List.nil_append]
+  rw [sstLoop]
+  simp only [ln_sst, nSst_ne_nSi, if_false]
+  rw [sstLoop_items]
+  simp [sstLoop]
+
+example : readSharedStrings (renderSst true [.plain [97], .emptyElem, .rich [[98], [], [99]] (some [80]), .rich [] none]) =
+    .ok [[97], [], [98, 99], []] := sst_alignment _ _
+
 /-! ## a non-trivial instance of the hypotheses -/
 
 def exCfg : Cfg := ⟨[[104, 105], []], [.other, .dateTime]⟩
